@@ -3,6 +3,8 @@
 //@ module verif_enum_glob
 //@ harness e_fnmatch kind=enum props=C12 thorough_bound=<<every pattern of 0..=5 symbols over {a, b, *, ?, [, ], !, -, backslash, /, ^} x every subject of 0..=3 symbols over {a, b, ., /, [, backslash, newline, ^, *, ?}; case-sensitive and caseless>> bound=<<every pattern of 0..=4 symbols over {a, b, *, ?, [, ], !, -, backslash, /, ^} x every subject of 0..=3 symbols over {a, b, ., /, [, backslash, newline, ^, *, ?}; case-sensitive and caseless (subjects also with A)>> label=<<Pattern::matches(pattern, subject) == fnmatch(pattern, subject, 0) of the C library (FNM_CASEFOLD for the -i forms), on the whole string>>
 //@ harness e_fnmatch_classes kind=enum props=C12 bound=<<bracket expressions [[:upper:]], [[:lower:]], [[:digit:]], [![:alpha:]], [[:alpha:]x], [a[:digit:]] optionally followed by x or * x subjects of 1..=2 symbols over {A, a, 1, x, -} x case-sensitive and caseless>> label=<<character classes in bracket expressions match as in fnmatch(), also in the -i forms>>
+//@ harness e_fnmatch_ascii kind=enum props=C12,C11 bound=<<every printable ASCII character c (0x20..=0x7e) in each of the patterns c, c*, *c, ac, a?c, backslash-c, cc x subjects c, ac, ca, a, cc, the empty string and a-newline-c; case-sensitive and caseless>> label=<<no character other than * ? [ and backslash is special in a pattern - whatever it means in a regular expression - and compiling a pattern never panics: the verdict equals fnmatch()>>
+//@ harness e_glob_subjects kind=enum props=C12 bound=<<a real tree d/{Ab, sub/x.c, sub/.h} with links whose stored targets are abbbc, ../x, a//b, a/b/, a/./b, ./Ab and an empty-looking ' ' x -name/-iname/-path/-ipath/-wholename/-lname/-ilname x 22 patterns (names, whole paths, targets, with and without metacharacters, other letter case)>> label=<<-name matches the last path component, -path/-wholename the whole path as printed, -lname the link's target text exactly as stored (no clean-up of slashes or dots), each with fnmatch() on that whole string; -lname is false for what is not a link>>
 // The oracle is the POSIX function the property names: libc's fnmatch().
 #[cfg(verif_replay)]
 mod verif_enum_glob {
@@ -70,4 +72,62 @@ mod verif_enum_glob {
         }
     }
     #[test] fn e_fnmatch_classes() { kani::explore(classes_body) }
+
+    fn ascii_body() {
+        let c = (0x20u8 + pick(0x7f - 0x20) as u8) as char;
+        let pat = match pick(7) { 0 => format!("{c}"), 1 => format!("{c}*"), 2 => format!("*{c}"), 3 => format!("a{c}"), 4 => format!("a?{c}"), 5 => format!("\\{c}"), _ => format!("{c}{c}") };
+        let caseless = pick(2) == 1;
+        let m = Pattern::new(&pat, caseless);   // must not panic for any character
+        // the same exclusions as e_fnmatch: brackets with a backslash, '[^', are not settled by the statement
+        if pat.contains('[') && pat.contains('\\') { return; }
+        for s in [format!("{c}"), format!("a{c}"), format!("{c}a"), "a".to_string(), format!("{c}{c}"), String::new(), format!("a\n{c}"), format!("ab{c}")] {
+            let (got, want) = (m.matches(&s), libc_fnmatch(&pat, &s, caseless));
+            if got != want { eprintln!("  input pattern {pat:?} subject {s:?} caseless {caseless}: find says {got}, fnmatch() says {want}"); }
+            assert!(got == want, "differs from fnmatch()");
+        }
+    }
+    #[test] fn e_fnmatch_ascii() { kani::explore(ascii_body) }
+
+    fn glob_subjects_body() {
+        use crate::find::tests::FakeDependencies;
+        use std::os::unix::fs::symlink;
+        let prim = ["-name", "-iname", "-path", "-ipath", "-wholename", "-lname", "-ilname"][pick(7)];
+        let pats = ["Ab", "ab", "x.c", "*.c", ".h", "*", "sub", "D/sub/x.c", "D/*", "*/x.c", "D/SUB/*", "abbbc", "ab*c", "../x", "a//b", "a/b", "a/b/", "*/", "a/./b", "a/?/b", "./Ab", "?"];
+        let pat = pats[pick(pats.len())];
+        let d = std::env::temp_dir().join(format!("verif-enum-globsub-{}", std::process::id()));
+        static ONCE: std::sync::Once = std::sync::Once::new();
+        let targets = [("l1", "abbbc"), ("l2", "../x"), ("l3", "a//b"), ("l4", "a/b/"), ("l5", "a/./b"), ("l6", "./Ab"), ("l7", " ")];
+        ONCE.call_once(|| {
+            let _ = std::fs::remove_dir_all(&d);
+            std::fs::create_dir_all(d.join("sub")).unwrap();
+            std::fs::write(d.join("Ab"), "").unwrap();
+            std::fs::write(d.join("sub/x.c"), "").unwrap();
+            std::fs::write(d.join("sub/.h"), "").unwrap();
+            for (n, t) in targets { symlink(t, d.join(n)).unwrap(); }
+        });
+        let ds = d.to_str().unwrap().to_string();
+        let pattern = pat.replace("D", &ds);
+        let caseless = prim.starts_with("-i");
+        let deps = FakeDependencies::new();
+        let rc = crate::find::find_main(&["find", &ds, prim, &pattern, "-print0"], &deps);
+        let out = deps.output.borrow().get_ref().clone();
+        let mut got: Vec<String> = out.split(|b| *b == 0).filter(|r| !r.is_empty()).map(|r| String::from_utf8_lossy(r).into_owned()).collect();
+        got.sort();
+        // the statement's subject for each entry
+        let mut entries = vec![ds.clone(), format!("{ds}/Ab"), format!("{ds}/sub"), format!("{ds}/sub/x.c"), format!("{ds}/sub/.h")];
+        for (n, _) in targets { entries.push(format!("{ds}/{n}")); }
+        let mut want: Vec<String> = Vec::new();
+        for e in &entries {
+            let subject: Option<String> = match prim {
+                "-name" | "-iname" => Some(e.rsplit('/').next().unwrap().to_string()),
+                "-path" | "-ipath" | "-wholename" => Some(e.clone()),
+                _ => std::fs::read_link(e).ok().map(|t| t.to_str().unwrap().to_string()),
+            };
+            if let Some(sub) = subject { if libc_fnmatch(&pattern, &sub, caseless) { want.push(e.clone()); } }
+        }
+        want.sort();
+        if got != want || rc != 0 { eprintln!("  input find D {prim} {:?}: exit {rc}\n  input selected {:?}\n  input expected {:?}", pat, got.iter().map(|g| g.replace(&ds, "D")).collect::<Vec<_>>(), want.iter().map(|g| g.replace(&ds, "D")).collect::<Vec<_>>()); }
+        assert!(rc == 0 && got == want, "the primary does not apply fnmatch() to the subject the statement names");
+    }
+    #[test] fn e_glob_subjects() { kani::explore(glob_subjects_body) }
 }
